@@ -305,10 +305,14 @@ theorem parsed_items_bounded_by_body (bs : Bytes) (is : Container) (h : parse bs
     2 * is.length + (is.map (fun i => i.val.length)).sum ≤ bs.length :=
   parse_cost bs.length bs is (Nat.le_refl _) h
 
-/-- every endpoint that parses a TLV8 request body reads it through `http.MaxBytesReader` with a limit of 64 KiB in the
-    source now (Generated/SrvLock.lean, go/ast; the pairing messages are below 1 KiB) -/
-theorem pairing_request_bodies_limited :
-    Hc.Generated.bodyReaders = ["pair-setup.go: limited 65536", "pair-verify.go: limited 65536", "pairings.go: limited 65536"] := by
+/-- every handler of hap/endpoint and hap/http that reads a request body reads it through `http.MaxBytesReader` in the
+    source now (Generated/SrvLock.lean, go/ast: every use of a request's `Body`): 64 KiB for the pairing endpoints (their
+    messages are below 1 KiB; F59) and `/resource`, 1 MiB for `PUT /characteristics` (F68: a verified controller could make
+    the accessory buffer, copy and convert to a string a body of any size) -/
+theorem request_bodies_limited :
+    Hc.Generated.bodyReaders = ["endpoint/pair-setup.go: limited 65536", "endpoint/pair-verify.go: limited 65536",
+      "endpoint/pairings.go: limited 65536", "endpoint/resource.go: limited 65536",
+      "http/characteristics.go: limited 1048576", "http/json.go: limited 1048576"] := by
   decide
 
 /-! ## plaintext requests the connection cannot frame (F62) -/
